@@ -456,6 +456,19 @@ def call_np(ip, name, args, kwargs, lineno):
         c.check("%s:window.positive@L%s" % (fn, lineno), I(w) >= 1, "safety", lineno, "window size >= 1")
         f = a.snapshot()
         return SArr2.fresh(conc(I(a.length) - I(w) + 1), w, lambda p, j: f(I(p) + I(j)), a.kind, a.enc)
+    if name == "argsort" and len(args) == 1 and isinstance(args[0], SArr):
+        # PARTIAL contract: some permutation p of 0..n-1 (bijection via an inverse Skolem function) with a[p] non-decreasing.
+        # (which permutation among equal keys is chosen - stability - is not specified)
+        M.use("np.argsort: a sorting permutation (PARTIAL: tie order unspecified)")
+        a = args[0]
+        fa, n = a.snapshot(), a.length
+        p, inv = c.fresh_fun("argsort"), c.fresh_fun("argsort_inv")
+        c.assume(Forall(lambda i: Implies(in_range(i, n), And(in_range(p(i), n), inv(p(i)) == i,
+                                                             Implies(I(i) + 1 < I(n), I(fa(p(i))) <= I(fa(p(I(i) + 1)))))), triggers=[p], name="argsort.perm"))
+        c.assume(Forall(lambda j: Implies(in_range(j, n), And(in_range(inv(j), n), p(inv(j)) == j)), triggers=[inv], name="argsort.onto"))
+        r = SArr.fresh(n, lambda i: p(I(i)))
+        r.argsort_of = (p, inv, fa, n)
+        return r
     if name == "lexsort" or name == "argsort" or name == "sort":
         raise Unsupported("np.%s (partial contract only; bounded)" % name)
     if name == "logical_and":
